@@ -31,7 +31,7 @@ m = {
         "guard": "verif",
         "enable": "go build -tags verif (harness module /verif/harness with replace => /repo)",
         "baseline_off_cmd": "cd /repo && GOFLAGS=-mod=mod GOPROXY=off go test -vet=off -count=1 -timeout 25m ./...",
-        "source_commits": registry.HOOK_COMMITS,
+        "source_commits": json.load(open(os.path.join(HERE, "props", "hook_commits.json"))),
         "add_only": True,
     },
     "engines": [{"name": "tlc+verifdrv", "path": "/verif/check",
